@@ -284,14 +284,22 @@ std::string cmdSegMap(const std::vector<std::string>& ops)
   // the two vectors are private; they are reconstructed through the public interface by probing
   // is not possible in general, so they are read through a layout-compatible mirror
   struct Mirror { std::vector<std::uint64_t> offsets; std::vector<std::vector<std::uint64_t>> segments; };
-  static_assert(sizeof(Mirror) == sizeof(m), "SegmentedMap layout changed");
-  const Mirror& mm = *reinterpret_cast<const Mirror*>(&m);
   std::string offs, segs;
-  for (std::size_t i = 0; i < mm.offsets.size(); ++i) { if (i) { offs += ','; } offs += std::to_string(mm.offsets[i]); }
-  for (std::size_t i = 0; i < mm.segments.size(); ++i)
+  if constexpr (sizeof(Mirror) == sizeof(m))
   {
-    if (i) { segs += '|'; }
-    for (std::size_t j = 0; j < mm.segments[i].size(); ++j) { if (j) { segs += ','; } segs += std::to_string(mm.segments[i][j]); }
+    const Mirror& mm = *reinterpret_cast<const Mirror*>(&m);
+    for (std::size_t i = 0; i < mm.offsets.size(); ++i) { if (i) { offs += ','; } offs += std::to_string(mm.offsets[i]); }
+    for (std::size_t i = 0; i < mm.segments.size(); ++i)
+    {
+      if (i) { segs += '|'; }
+      for (std::size_t j = 0; j < mm.segments[i].size(); ++j) { if (j) { segs += ','; } segs += std::to_string(mm.segments[i][j]); }
+    }
+  }
+  else
+  {
+    // the class no longer has exactly the two vectors the model mirrors: the internal structure cannot be
+    // compared (the correspondence reports that), the observable behaviour (finds, size, std::map oracle) still is
+    offs = "layout-changed"; segs = "layout-changed";
   }
   std::string r = "finds=" + finds + " offsets=" + offs + " segments=" + segs + " size=" + std::to_string(m.size());
   if (! refOk) { r += " STDMAP-MISMATCH"; }
